@@ -334,6 +334,40 @@ static void repeatCase(long k, const vh::Args &a) {
     vh::endCase();
 }
 
+// Closed witnesses of Props/C07MakeFeasible (the same three scenes the theorems `satisfiable_scene_dropped`,
+// `drop_depends_on_order`, `combined_breaks_accepted` are about), run through the real makeFeasible() on every run.
+static void witnessCase(long k, int w) {
+    Scene s;
+    auto R = [](double cx, double cy) { RectSpec r; r.x = cx - 5; r.X = cx + 5; r.y = cy - 5; r.Y = cy + 5; return r; };
+    auto sep = [](unsigned l, unsigned r, double g, bool eq) { CCSpec c; c.kind = CCSpec::SEPARATION; c.dim = 0; c.l = l; c.r = r; c.gap = g; c.eq = eq; return c; };
+    s.graphKind = "edgeless"; s.startKind = w == 2 ? "spread" : "coincident";
+    if (w == 0) { s.rects = {R(0, 0), R(0, 0)}; s.ccs = {sep(1, 0, -3, true), sep(0, 1, 1, false)}; }
+    else if (w == 1) { s.rects = {R(0, 0), R(0, 0)}; s.ccs = {sep(0, 1, 1, false), sep(1, 0, -3, true)}; }
+    else { s.rects = {R(0, 0), R(-5, 0)}; CCSpec f; f.kind = CCSpec::FIXEDREL; f.ids = {0, 1}; f.fixedPos = false; s.ccs = {f, sep(0, 1, 10, false)}; }
+    const char *tags[] = {"mfwit-sat-dropped", "mfwit-sat-order", "mfwit-combined"};
+    vh::beginCase(k, tags[w]);
+    printScene(s);
+    printf("algo fdmf\noverlap 0\nnstress 0\niters 0\nlocks 0\ndesired 0\n");
+    vpsc::Rectangles rs = buildRects(s.rects);
+    cola::CompoundConstraints ccs = buildCCs(s.ccs, rs);
+    printOrder(ccs, false); fflush(stdout);
+    cola::EdgeLengths el; cola::UnsatisfiableConstraintInfos ux, uy; cola::TestConvergence test(1e-4, 1);
+    std::string exc;
+    {
+        cola::ConstrainedFDLayout alg(rs, s.edges, s.ideal, el, &test);
+        alg.setConstraints(ccs); alg.setUnsatisfiableConstraintInfo(&ux, &uy);
+        exc = runGuarded([&]() { mfArm(); alg.makeFeasible(); dumpMF(rs, ccs, ""); });
+    }
+    printOut(rs);
+    printUnsat(0, ux, ccs); printUnsat(1, uy, ccs);
+    printf("exc %s\n", oneWord(exc).c_str());
+    for (auto *p : ux) delete p;
+    for (auto *p : uy) delete p;
+    for (auto *c : ccs) delete c;
+    for (auto *q : rs) delete q;
+    vh::endCase();
+}
+
 int main(int argc, char **argv) {
     vh::Args a = vh::parseArgs(argc, argv);
     bool thorough = a.tier == "thorough";
@@ -367,5 +401,6 @@ int main(int argc, char **argv) {
         if (WIFSIGNALED(st)) { fprintf(stderr, "child killed by signal %d in case %ld\n", WTERMSIG(st), k); return 99; }
         if (WEXITSTATUS(st) != 0) return WEXITSTATUS(st);
     }
+    for (int w = 0; w < 3; ++w, ++k) if (a.want(k)) witnessCase(k, w);
     return 0;
 }
